@@ -7,6 +7,7 @@ import (
 	"os/exec"
 	"path/filepath"
 	"strings"
+	"time"
 
 	"verifsim/engine"
 	"verifsim/machine"
@@ -40,7 +41,7 @@ func (c24) Describe() engine.Info {
 		Rule: "scenario = workload (test ROM from the repository / generated program / random video+audio scene with parked CPU / random bytes as code) x audio and video attached or not x random key schedule x 2..12 frames, preceded by a different 'disturber' workload run in the same process between the two in-process runs. " +
 			"Oracle: checkpoint digests every 4096 cycles and final state digest equal between run 1, run 2 (same process, after the disturber) and run 3 (fresh process, other GOMAXPROCS). Signature = (workload kind or ROM, audio, video, keys present).",
 		Assumptions:    []string{"a panic of the emulator ends a run; it must then occur at the same cycle in every run (whether it may occur at all is C11's business)"},
-		RequiredProbes: []string{"child_process_runs", "frames_compared", "samples_compared"},
+		RequiredProbes: []string{"child_process_runs", "frames_compared", "samples_compared", "host_stalled_mid_frame"},
 		RealComponents: realComponents, StubComponents: stubComponents,
 	}
 }
@@ -63,11 +64,23 @@ func (c24) Generate(r *engine.Rand, index int, tier string) *engine.Scenario {
 	}
 	sortEvents(sc.Events)
 	sc.SetP("gomaxprocs", int64([]int{1, 2, 4, 16}[r.Intn(4)]))
+	if index%8 == 5 {
+		// a slow host: the second and third run are stalled (real time passes, emulated time does not)
+		// inside a few machine cycles; nothing the emulator produces may depend on how long the host took
+		for i, n := 0, r.Range(1, 3); i < n; i++ {
+			sc.Events = append(sc.Events, engine.Event{At: uint64(r.Intn(int(sc.Cycles))), K: "stall", N: int64(r.Range(22, 45))})
+		}
+		sortEvents(sc.Events)
+	}
 	return sc
 }
 
 // traceOf runs the scenario's workload once and returns its checkpoint digests.
 func traceOf(sc *engine.Scenario, pfx string, res *engine.Result) ([]uint64, *tracer) {
+	return traceOfStalled(sc, pfx, res, false)
+}
+
+func traceOfStalled(sc *engine.Scenario, pfx string, res *engine.Result, stalls bool) ([]uint64, *tracer) {
 	w := loadWorkload(sc, pfx)
 	m := newFree(w, 0, res)
 	if m == nil {
@@ -78,6 +91,14 @@ func traceOf(sc *engine.Scenario, pfx string, res *engine.Result) ([]uint64, *tr
 	m.OnCycle = func() {
 		t.cycle()
 		if pfx == "" {
+			for ei < len(sc.Events) && sc.Events[ei].At <= m.N && sc.Events[ei].K == "stall" {
+				if stalls {
+					time.Sleep(time.Duration(sc.Events[ei].N) * time.Millisecond)
+					res.Fault("host_stall")
+					res.Probe("host_stalled_mid_frame")
+				}
+				ei++
+			}
 			applyKeyEvents(m, sc.Events, &ei, nil)
 		}
 	}
@@ -106,7 +127,7 @@ func TraceJSON(path string) int {
 		return 2
 	}
 	res := &engine.Result{}
-	pts, _ := traceOf(sc, "", res)
+	pts, _ := traceOfStalled(sc, "", res, true)
 	if res.Harness != "" {
 		fmt.Println("HARNESS-FAULT", res.Harness)
 		return 2
@@ -144,7 +165,7 @@ func (c24) Execute(sc *engine.Scenario) *engine.Result {
 	if res.Harness != "" {
 		return res
 	}
-	p2, _ := traceOf(sc, "", res)
+	p2, _ := traceOfStalled(sc, "", res, true)
 	if res.Harness != "" {
 		return res
 	}
